@@ -110,7 +110,13 @@ case "${1:-}" in
     echo "setup ok"
     ;;
   replay)
+    [ -n "${2:-}" ] || { echo "usage: $0 replay <file>"; exit 2; }
+    set -- replay "$(readlink -f "$2")"
     build_mc || exit 2
+    if grep -q '"check": "C\(03\|11\)-\(sched\|race\)"\|"property": "C\(03\|11\)"' "$2" 2>/dev/null && build_sched; then
+      [ -x "$BUILD/mc-race" ] || build_race
+      exec "$BUILD/mc-sched" replay "$2"
+    fi
     exec "$BUILD/mc" replay "$2"
     ;;
   C03|C11)
